@@ -345,7 +345,7 @@ fn check_issuer_subpackets(ctx: &mut Ctx, sig_body: &[u8], ref_fp: &[u8], ref_id
 pub fn run(ctx: &mut Ctx) {
     // ------------------------------------------------------------------------------------
     // Family A: library-generated certificates, many seeds per fast algorithm
-    let per_alg = ctx.qt(60u64, 1500u64);
+    let per_alg = ctx.qt(60u64, 8000u64);
     let mut specs: Vec<Spec> = vec![];
     for s in zoo::signer_specs(true) {
         specs.push(s);
@@ -395,7 +395,7 @@ pub fn run(ctx: &mut Ctx) {
     // report the reference hash for whatever it accepts. v3 RSA, v4/v6 RSA with odd bit lengths,
     // DSA/ElGamal shaped MPIs, native 25519/448 material, unknown algorithms with opaque material
     // (bodies > 255 and, for v6, > 65535 octets).
-    let nb = ctx.qt(600u64, 20000u64);
+    let nb = ctx.qt(600u64, 400000u64);
     for i in 0..nb {
         if !ctx.mine() {
             continue;
@@ -418,11 +418,25 @@ pub fn run(ctx: &mut Ctx) {
         };
         let (version, alg, material, label): (u8, u8, Vec<u8>, &str) = match kind {
             0 => {
+                // v2/v3 RSA with every RSA algorithm id (1, 2, 3 share the key material) and, in rotation,
+                // zero octets planted where the key id is taken from (low 64 bits of n)
                 let mut m = rnd_mpi(&mut rng, 2048 - (i as usize % 9));
                 let last = m.len() - 1;
+                match (i / 36) % 5 {
+                    1 => m[last - 7] = 0,
+                    2 => {
+                        m[last - 7] = 0;
+                        m[last - 6] = 0;
+                    }
+                    3 => m[last - 7..last].fill(0),
+                    4 => m[last - 3] = 0,
+                    _ => {}
+                }
                 m[last] |= 1;
                 m.extend(rfc::mpi(&[1, 0, 1]));
-                (3, 1, m, "v3-rsa")
+                let alg = [1u8, 2, 3][(i / 12 % 3) as usize];
+                let ver = if (i / 12) % 8 == 7 { 2 } else { 3 };
+                (ver, alg, m, ["v3-rsa", "v3-rsa-encrypt-only", "v3-rsa-sign-only"][(i / 12 % 3) as usize])
             }
             1 => {
                 let mut m = rnd_mpi(&mut rng, 1024 + (i as usize % 17));
@@ -505,7 +519,7 @@ pub fn run(ctx: &mut Ctx) {
         };
         let rp = RefPub { version, created, v3_expiry_days: (i % 400) as u16, alg, material };
         let body = rp.encode();
-        let is_sub = i % 3 == 0 && version != 3;
+        let is_sub = i % 3 == 0 && version > 3;
         let replay = json!({"family": "B", "label": label, "body": hexs(&body), "subkey": is_sub});
         crate::core::describe_case(&format!("B:{label}"));
         let hdr = PacketHeader::new_fixed(if is_sub { Tag::PublicSubkey } else { Tag::PublicKey }, body.len() as u32);
